@@ -29,6 +29,8 @@ func build(cfg string) explore.System {
 		return newSys(wc, f[3] != "pairs=none", f[3] == "pairs=root")
 	case "path":
 		return newPathSys(wc)
+	case "bulk":
+		return newBulkSys(wc)
 	}
 	panic("bad config " + cfg)
 }
@@ -57,6 +59,8 @@ func main() {
 				return []explore.Config{
 					{Name: "mgmt hashtable localhop=on pairs=none", MaxDepth: 2, MaxDev: 1},
 					{Name: "path nametree localhop=off -", MaxDepth: 2, MaxDev: -1},
+					// large tables: the datasets must still list exactly the tables
+					{Name: "bulk nametree localhop=off -", MaxDepth: 1, MaxDev: -1},
 					{Name: "path nametree localhop=on -", MaxDepth: 2, MaxDev: -1},
 					// every history of routine commands, NOT de-duplicated on the canonical state: state a
 					// defect adds behind the tables (an aliased slice, a cached value) is in no canonical
@@ -77,6 +81,8 @@ func main() {
 					}
 				}
 			}
+			c = append(c, explore.Config{Name: "bulk nametree localhop=off -", MaxDepth: 1, MaxDev: -1})
+			c = append(c, explore.Config{Name: "bulk hashtable localhop=off -", MaxDepth: 1, MaxDev: -1})
 			// cheap configurations first: the budget left over goes to the expensive ones
 			each(func(fib, lh string) {
 				c = append(c, explore.Config{Name: "path " + fib + " " + lh + " -", MaxDepth: 4, MaxDev: -1})
@@ -104,7 +110,7 @@ func main() {
 			}
 			return 100 * time.Second
 		},
-		Rule: "BFS over histories of management command Interests delivered through the real internal face to the real management thread (receive loop of Thread.Run() generated verbatim from the current source, all six modules); alphabet = odometer over module/verb x ControlParameters fields (every single-field departure over twelve fields, every two-field departure over the fields the verb reads), damaged parameter components, arrival prefixes, unknown modules/verbs, dataset requests; after every transition: answer status vs three-valued expectation, tables vs reference model, all six datasets vs tables, one Interest sent through every face",
+		Rule:        "BFS over histories of management command Interests delivered through the real internal face to the real management thread (receive loop of Thread.Run() generated verbatim from the current source, all six modules); alphabet = odometer over module/verb x ControlParameters fields (every single-field departure over twelve fields, every two-field departure over the fields the verb reads), damaged parameter components, arrival prefixes, unknown modules/verbs, dataset requests; after every transition: answer status vs three-valued expectation, tables vs reference model, all six datasets vs tables, one Interest sent through every face",
 		Assumptions: assumptions,
 		Extra: func(rep *report.Reporter, cov report.Coverage) {
 			a := buildAlphabet(true, true)
